@@ -1,2 +1,347 @@
+(* C18 — proofs about FileName.cpp: str = path ++ base, base = name [++ "." ++ ext] with the
+   extension taken from the last component only, and the recomposition laws of
+   dropExt / setExt / addExt / operator+. *)
 From Common Require Import Prelude.
 From C18 Require Import Model.
+Local Open Scope N_scope.
+
+Definition nq (c : N) : N -> bool := fun x => negb (N.eqb x c).
+
+Lemma mem_In c s : mem c s = true <-> In c s.
+Proof.
+  unfold mem. rewrite existsb_exists. split.
+  - intros (x & I & E). apply N.eqb_eq in E. now subst.
+  - intro I. exists c. split; [assumption | apply N.eqb_refl].
+Qed.
+
+Lemma mem_false c s : mem c s = false <-> ~ In c s.
+Proof.
+  rewrite <- mem_In. destruct (mem c s); split; intro H; try reflexivity; try discriminate; try congruence.
+  now destruct H.
+Qed.
+
+(* ------------------------------------------------------- takeWhile / dropWhile *)
+Lemma tw_dw p l : takeWhile p l ++ dropWhile p l = l.
+Proof. induction l as [|x l IH]; simpl; [reflexivity|]. destruct (p x); simpl; [now rewrite IH | reflexivity]. Qed.
+
+Lemma tw_all p l l2 :
+  Forall (fun x => p x = true) l ->
+  takeWhile p (l ++ l2) = l ++ takeWhile p l2 /\ dropWhile p (l ++ l2) = dropWhile p l2.
+Proof.
+  induction 1 as [|x l Hx _ [IH1 IH2]]; simpl; [split; reflexivity|].
+  rewrite Hx, IH1, IH2. split; reflexivity.
+Qed.
+
+Lemma dw_head p l : dropWhile p l = [] \/ exists x r, dropWhile p l = x :: r /\ p x = false.
+Proof.
+  induction l as [|x l IH]; simpl; [now left|].
+  destruct (p x) eqn:E; [exact IH | right; now exists x, l].
+Qed.
+
+Lemma dw_incl p l x : In x (dropWhile p l) -> In x l.
+Proof.
+  induction l as [|y l IH]; simpl; [tauto|].
+  destruct (p y); [intro H; right; now apply IH | tauto].
+Qed.
+
+Lemma notin_nq c l : ~ In c l -> Forall (fun x => nq c x = true) (rev l).
+Proof.
+  intro H. rewrite Forall_forall. intros x I. apply in_rev in I. unfold nq.
+  destruct (N.eqb_spec x c) as [->|]; [contradiction | reflexivity].
+Qed.
+
+Lemma after_last_eq c s : after_last c s = rev (takeWhile (nq c) (rev s)). Proof. reflexivity. Qed.
+Lemma upto_last_eq c s : upto_last c s = rev (dropWhile (nq c) (rev s)). Proof. reflexivity. Qed.
+Lemma before_last_eq c s : before_last c s = rev (tl (dropWhile (nq c) (rev s))). Proof. reflexivity. Qed.
+
+(* a suffix free of c is skipped by the find_last_of scan *)
+Lemma last_app_clean c a b :
+  ~ In c b ->
+  after_last c (a ++ b) = after_last c a ++ b /\
+  upto_last c (a ++ b) = upto_last c a /\
+  before_last c (a ++ b) = before_last c a.
+Proof.
+  intro H. rewrite !after_last_eq, !upto_last_eq, !before_last_eq, rev_app_distr.
+  destruct (tw_all (nq c) (rev b) (rev a) (notin_nq c b H)) as [E1 E2].
+  rewrite E1, E2, rev_app_distr, rev_involutive. repeat split; reflexivity.
+Qed.
+
+Lemma last_snoc c a :
+  after_last c (a ++ [c]) = [] /\ upto_last c (a ++ [c]) = a ++ [c] /\ before_last c (a ++ [c]) = a.
+Proof.
+  rewrite !after_last_eq, !upto_last_eq, !before_last_eq, rev_app_distr. simpl.
+  unfold nq at 1 3 5. rewrite N.eqb_refl. simpl. rewrite rev_involutive. repeat split; reflexivity.
+Qed.
+
+Lemma last_none c s :
+  ~ In c s -> after_last c s = s /\ upto_last c s = [] /\ before_last c s = [].
+Proof.
+  intro H. pose proof (last_app_clean c [] s H) as (E1 & E2 & E3). simpl in *.
+  rewrite E1, E2, E3. repeat split; reflexivity.
+Qed.
+
+(* the scan finds the LAST occurrence *)
+Lemma last_split_eq c a b :
+  ~ In c b ->
+  after_last c (a ++ c :: b) = b /\ upto_last c (a ++ c :: b) = a ++ [c] /\ before_last c (a ++ c :: b) = a.
+Proof.
+  intro H. change (a ++ c :: b) with (a ++ [c] ++ b). rewrite app_assoc.
+  destruct (last_app_clean c (a ++ [c]) b H) as (E1 & E2 & E3).
+  destruct (last_snoc c a) as (F1 & F2 & F3).
+  rewrite E1, E2, E3, F1, F2, F3. repeat split; reflexivity.
+Qed.
+
+Lemma last_split c s : ~ In c s \/ exists a b, s = a ++ c :: b /\ ~ In c b.
+Proof.
+  induction s as [|x s [IH | (a & b & -> & Hb)]].
+  - left. intros [].
+  - destruct (N.eq_dec x c) as [->|Hne].
+    + right. now exists [], s.
+    + left. intros [E|I]; [congruence | contradiction].
+  - right. now exists (x :: a), b.
+Qed.
+
+Lemma upto_after c s : upto_last c s ++ after_last c s = s.
+Proof.
+  rewrite after_last_eq, upto_last_eq, <- rev_app_distr, tw_dw. apply rev_involutive.
+Qed.
+
+(* ------------------------------------------------------------ normalisation *)
+(* what a FileName object holds: no backslash, no trailing separator *)
+Definition normal (f : str) : Prop := ~ In BSL f /\ forall g, f <> g ++ [SEP].
+
+Definition unify (c : N) : N := if N.eqb c BSL || N.eqb c SEP then SEP else c.
+
+Lemma fn_norm_eq s : fn_norm s = rev (dropWhile (N.eqb SEP) (rev (map unify s))).
+Proof. reflexivity. Qed.
+
+Lemma fn_norm_normal s : normal (fn_norm s).
+Proof.
+  rewrite fn_norm_eq. split.
+  - intro I. apply in_rev in I. apply dw_incl in I. apply in_rev in I. rewrite rev_involutive in I.
+    apply in_map_iff in I as (x & E & _). unfold unify in E.
+    destruct (N.eqb x BSL || N.eqb x SEP) eqn:B; [discriminate|].
+    apply orb_false_iff in B as [B _]. apply N.eqb_neq in B. congruence.
+  - intros g E. apply (f_equal (@rev N)) in E. rewrite rev_involutive, rev_app_distr in E. simpl in E.
+    destruct (dw_head (N.eqb SEP) (rev (map unify s))) as [D | (x & r & D & Hx)]; rewrite D in E.
+    + discriminate.
+    + inversion E; subst. now rewrite N.eqb_refl in Hx.
+Qed.
+
+Lemma fn_norm_id f : normal f -> fn_norm f = f.
+Proof.
+  intros [Hb Ht]. rewrite fn_norm_eq.
+  assert (M : map unify f = f).
+  { rewrite <- (map_id f) at 2. apply map_ext_in. intros x I. unfold unify.
+    destruct (N.eqb_spec x BSL) as [->|]; [contradiction|]. simpl.
+    destruct (N.eqb_spec x SEP) as [->|]; reflexivity. }
+  rewrite M. destruct (rev f) as [|x r] eqn:E.
+  - apply (f_equal (@rev N)) in E. rewrite rev_involutive in E. now subst.
+  - simpl. destruct (N.eqb_spec SEP x) as [<-|Hne].
+    + exfalso. apply (Ht (rev r)). apply (f_equal (@rev N)) in E. rewrite rev_involutive in E. now subst.
+    + rewrite <- E. apply rev_involutive.
+Qed.
+
+Lemma fn_norm_idem s : fn_norm (fn_norm s) = fn_norm s.
+Proof. apply fn_norm_id, fn_norm_normal. Qed.
+
+(* --------------------------------------------------------------- path / base *)
+Lemma path_base f :
+  f = fn_path f ++ fn_base f /\ ~ In SEP (fn_base f) /\
+  (fn_path f = [] \/ exists p, fn_path f = p ++ [SEP]).
+Proof.
+  unfold fn_path, fn_base. split; [symmetry; apply upto_after|].
+  destruct (last_split SEP f) as [H | (a & b & -> & Hb)].
+  - destruct (last_none SEP f H) as (E1 & E2 & _). rewrite E1, E2. split; [assumption | now left].
+  - destruct (last_split_eq SEP a b Hb) as (E1 & E2 & _). rewrite E1, E2. split; [assumption | right; now exists a].
+Qed.
+
+(* ext/name/dropExt/setExt test the last dot against the start of the last component:
+   that is the same as asking whether the last component contains a dot *)
+Lemma dot_in_last_base f : dot_in_last f = mem DOT (fn_base f).
+Proof.
+  destruct (path_base f) as (Hf & Hs & Hp).
+  set (pa := fn_path f) in *. set (ba := fn_base f) in *. clearbody pa ba. subst f.
+  unfold dot_in_last.
+  destruct (last_split DOT ba) as [H | (n & e & -> & He)].
+  - rewrite (proj2 (mem_false DOT ba) H).
+    destruct (last_app_clean DOT pa ba H) as (E1 & _). rewrite E1.
+    destruct Hp as [-> | (p & ->)].
+    + simpl. rewrite (proj2 (mem_false DOT ba) H). reflexivity.
+    + assert (D : ~ In DOT [SEP]) by (intros [E|[]]; discriminate).
+      destruct (last_app_clean DOT p [SEP] D) as (F1 & _). rewrite F1.
+      assert (M : mem SEP ((after_last DOT p ++ [SEP]) ++ ba) = true).
+      { apply mem_In. apply in_or_app. left. apply in_or_app. right. now left. }
+      rewrite M. apply andb_false_r.
+  - assert (In DOT (n ++ DOT :: e)) as I1 by (apply in_or_app; right; now left).
+    rewrite (proj2 (mem_In _ _) I1).
+    assert (In DOT (pa ++ n ++ DOT :: e)) as I2 by (apply in_or_app; now right).
+    rewrite (proj2 (mem_In _ _) I2).
+    rewrite app_assoc. destruct (last_split_eq DOT (pa ++ n) e He) as (E1 & _). rewrite E1.
+    assert (~ In SEP e) as Hse by (intro I; apply Hs; apply in_or_app; right; now right).
+    rewrite (proj2 (mem_false _ _) Hse). reflexivity.
+Qed.
+
+(* The decomposition, for every string f (normalised or not):
+   f = path ++ base, base has no separator, path is empty or ends with the separator; and
+   either the last component has no dot (name = base, no extension, dropExt = f)
+   or base = name ++ "." ++ ext with ext dot-free (i.e. taken after the LAST dot of the
+   LAST component), dropExt = FileName(path ++ name), setExt e = FileName(path ++ name ++ e). *)
+Lemma filename_cases f :
+  let path := fn_path f in let base := fn_base f in
+  f = path ++ base /\ ~ In SEP base /\ (path = [] \/ exists p, path = p ++ [SEP]) /\
+  ((~ In DOT base /\ fn_name f = base /\ fn_ext f = [] /\ fn_dropExt f = f /\
+    forall x, fn_setExt f x = fn_norm (f ++ x)) \/
+   (In DOT base /\ base = fn_name f ++ DOT :: fn_ext f /\ ~ In DOT (fn_ext f) /\
+    fn_dropExt f = fn_norm (path ++ fn_name f) /\
+    forall x, fn_setExt f x = fn_norm (path ++ fn_name f ++ x))).
+Proof.
+  cbv zeta. destruct (path_base f) as (Hf & Hs & Hp).
+  split; [assumption|]. split; [assumption|]. split; [assumption|].
+  unfold fn_name, fn_ext, fn_dropExt, fn_setExt. rewrite (dot_in_last_base f).
+  set (pa := fn_path f) in *. set (ba := fn_base f) in *.
+  assert (Eba : after_last SEP f = ba) by reflexivity.
+  clearbody pa ba.
+  destruct (last_split DOT ba) as [H | (n & e & Hba & He)].
+  - left. rewrite (proj2 (mem_false DOT ba) H). rewrite Eba. repeat split; try assumption; reflexivity.
+  - right.
+    assert (In DOT ba) as I1 by (rewrite Hba; apply in_or_app; right; now left).
+    rewrite (proj2 (mem_In _ _) I1).
+    assert (Ef : f = (pa ++ n) ++ DOT :: e) by (rewrite Hf, Hba; now rewrite app_assoc).
+    destruct (last_split_eq DOT (pa ++ n) e He) as (E1 & _ & E3). rewrite <- Ef in E1, E3.
+    rewrite E1, E3.
+    assert (~ In SEP n) as Hsn by (intro I; apply Hs; rewrite Hba; apply in_or_app; now left).
+    destruct (last_app_clean SEP pa n Hsn) as (F1 & _). rewrite F1.
+    assert (after_last SEP pa = []) as ->.
+    { destruct Hp as [-> | (p & ->)]; [reflexivity | apply (last_snoc SEP p)]. }
+    simpl. repeat split; try assumption; try reflexivity.
+    now rewrite <- app_assoc.
+Qed.
+
+(* ext() and name() depend on the last component only *)
+Lemma ext_last_component f : fn_ext f = fn_ext (fn_base f) /\ fn_name f = fn_name (fn_base f).
+Proof.
+  destruct (filename_cases f) as (_ & Hs & _ & H). cbv zeta in *.
+  assert (B : fn_base (fn_base f) = fn_base f).
+  { unfold fn_base at 1. now destruct (last_none SEP (fn_base f) Hs) as (-> & _). }
+  assert (P : fn_path (fn_base f) = []).
+  { unfold fn_path. now destruct (last_none SEP (fn_base f) Hs) as (_ & -> & _). }
+  destruct (filename_cases (fn_base f)) as (_ & _ & _ & H'). cbv zeta in *. rewrite B, P in H'.
+  destruct H as [(Hd & Hn & He & _) | (Hd & Hb & Hde & _)];
+    destruct H' as [(Hd' & Hn' & He' & _) | (Hd' & Hb' & Hde' & _)]; try contradiction.
+  - rewrite Hn, He, Hn', He'. split; reflexivity.
+  - (* both decompose base at its last dot: the decompositions coincide *)
+    rewrite Hb in Hb' at 1.
+    assert (U : forall a b a' b', a ++ DOT :: b = a' ++ DOT :: b' -> ~ In DOT b -> ~ In DOT b' -> a = a' /\ b = b').
+    { intros a b a' b' E Nb Nb'.
+      destruct (last_split_eq DOT a b Nb) as (X1 & _ & X3).
+      destruct (last_split_eq DOT a' b' Nb') as (Y1 & _ & Y3).
+      rewrite E in X1, X3. split; congruence. }
+    destruct (U _ _ _ _ Hb' Hde Hde') as [U1 U2]. split; assumption.
+Qed.
+
+(* recomposition: for a FileName value (normal) *)
+Lemma setExt_own_ext f :
+  normal f -> In DOT (fn_base f) -> fn_setExt f (DOT :: fn_ext f) = f.
+Proof.
+  intros Hn Hd. destruct (filename_cases f) as (Hf & _ & _ & [(Hd' & _) | (_ & Hb & _ & _ & Hset)]); cbv zeta in *.
+  - contradiction.
+  - rewrite Hset, <- Hb, <- Hf. now apply fn_norm_id.
+Qed.
+
+Lemma dropExt_addExt f :
+  normal f -> In DOT (fn_base f) -> fn_name f <> [] ->
+  fn_addExt (fn_dropExt f) (DOT :: fn_ext f) = f.
+Proof.
+  intros Hn Hd Hne. destruct (filename_cases f) as (Hf & Hs & _ & [(Hd' & _) | (_ & Hb & _ & Hdrop & _)]); cbv zeta in *.
+  - contradiction.
+  - assert (N1 : normal (fn_path f ++ fn_name f)).
+    { destruct Hn as [Hbsl Htr]. split.
+      - intro I. apply Hbsl. rewrite Hf, Hb, app_assoc. apply in_or_app. now left.
+      - intros g E. assert (In SEP (fn_name f)) as I.
+        { destruct (fn_name f) as [|x nm] using rev_ind; [contradiction|].
+          rewrite app_assoc in E. apply app_inj_tail in E as [_ ->]. apply in_or_app. right. now left. }
+        apply Hs. rewrite Hb. apply in_or_app. now left. }
+    rewrite Hdrop, (fn_norm_id _ N1). unfold fn_addExt.
+    rewrite <- app_assoc, <- Hb, <- Hf. now apply fn_norm_id.
+Qed.
+
+Lemma dropExt_no_ext f : normal f -> ~ In DOT (fn_base f) -> fn_dropExt f = f /\ fn_setExt f [] = f /\ fn_addExt f [] = f.
+Proof.
+  intros Hn Hd. destruct (filename_cases f) as (_ & _ & _ & [(_ & _ & _ & Hdrop & Hset) | (Hd' & _)]); cbv zeta in *.
+  - rewrite Hdrop, Hset. unfold fn_addExt. rewrite app_nil_r, (fn_norm_id _ Hn). repeat split; reflexivity.
+  - contradiction.
+Qed.
+
+(* operator+ : appending one more component *)
+Lemma plus_component a b :
+  normal a -> a <> [] -> normal b -> b <> [] -> ~ In SEP b ->
+  fn_plus a b = a ++ SEP :: b /\ fn_path (fn_plus a b) = a ++ [SEP] /\ fn_base (fn_plus a b) = b.
+Proof.
+  intros [Ha1 Ha2] Hane [Hb1 Hb2] Hbne Hbs.
+  assert (E : fn_plus a b = a ++ SEP :: b).
+  { unfold fn_plus. destruct a as [|x a]; [contradiction|]. apply fn_norm_id. split.
+    - intro I. apply in_app_or in I as [I | [I | I]]; [contradiction | discriminate | contradiction].
+    - intros g E. destruct b as [|y b] using rev_ind; [contradiction|].
+      change ((x :: a) ++ SEP :: b ++ [y]) with ((x :: a) ++ (SEP :: b) ++ [y]) in E.
+      rewrite app_assoc in E. apply app_inj_tail in E as [_ ->].
+      apply Hbs. apply in_or_app. right. now left. }
+  rewrite E. unfold fn_path, fn_base.
+  destruct (last_split_eq SEP a b Hbs) as (E1 & E2 & _). rewrite E1, E2. repeat split; reflexivity.
+Qed.
+
+Lemma plus_empty b : fn_plus [] b = b /\ forall o, fn_plus_str [] o = fn_norm o.
+Proof. split; reflexivity. Qed.
+
+(* path()+base() recomposes f through operator+ when the directory part is itself a FileName *)
+Lemma plus_path_base p b :
+  normal p -> p <> [] -> normal b -> b <> [] -> ~ In SEP b ->
+  let f := fn_plus p b in fn_plus (fn_norm (fn_path f)) (fn_base f) = f.
+Proof.
+  intros Hp Hpne Hb Hbne Hbs. cbv zeta.
+  destruct (plus_component p b Hp Hpne Hb Hbne Hbs) as (E & E1 & E2). rewrite E1, E2.
+  assert (fn_norm (p ++ [SEP]) = p) as ->; [|reflexivity].
+  rewrite fn_norm_eq. destruct Hp as [Hp1 Hp2].
+  assert (M : map unify (p ++ [SEP]) = p ++ [SEP]).
+  { rewrite <- (map_id (p ++ [SEP])) at 2. apply map_ext_in. intros x I. unfold unify.
+    destruct (N.eqb_spec x BSL) as [->|]; [|simpl; destruct (N.eqb_spec x SEP) as [->|]; reflexivity].
+    apply in_app_or in I as [I | [I | []]]; [contradiction | discriminate]. }
+  rewrite M, rev_app_distr. simpl.
+  destruct (rev p) as [|x r] eqn:Er.
+  - apply (f_equal (@rev N)) in Er. rewrite rev_involutive in Er. now subst.
+  - simpl. destruct (N.eqb_spec SEP x) as [<-|Hne].
+    + exfalso. apply (Hp2 (rev r)). apply (f_equal (@rev N)) in Er. rewrite rev_involutive in Er. now subst.
+    + rewrite <- Er. apply rev_involutive.
+Qed.
+
+(* ------------------------------------------------------------------ instances *)
+(* ".bashrc" : hidden file = empty name, extension "bashrc" *)
+Lemma inst_hidden :
+  let f := fn_norm [46; 98; 97; 115; 104; 114; 99] in
+  fn_path f = [] /\ fn_name f = [] /\ fn_ext f = [98; 97; 115; 104; 114; 99] /\ fn_dropExt f = [].
+Proof. vm_compute. repeat split; reflexivity. Qed.
+
+(* "dir.d/file" : the dot lies in a directory, no extension *)
+Lemma inst_dot_in_dir :
+  let f := fn_norm [100; 105; 114; 46; 100; 47; 102; 105; 108; 101] in
+  fn_path f = [100; 105; 114; 46; 100; 47] /\ fn_base f = [102; 105; 108; 101] /\
+  fn_name f = [102; 105; 108; 101] /\ fn_ext f = [] /\ fn_dropExt f = f.
+Proof. vm_compute. repeat split; reflexivity. Qed.
+
+(* "a\b.c//" : separators unified, trailing ones stripped *)
+Lemma inst_trailing :
+  let f := fn_norm [97; 92; 98; 46; 99; 47; 47] in
+  f = [97; 47; 98; 46; 99] /\ fn_path f = [97; 47] /\ fn_name f = [98] /\ fn_ext f = [99] /\
+  fn_dropExt f = [97; 47; 98] /\ fn_setExt f [46; 120] = [97; 47; 98; 46; 120].
+Proof. vm_compute. repeat split; reflexivity. Qed.
+
+(* /repo before the repair: ext()/dropExt() used the last dot of the whole string *)
+Lemma filename_ext_old_refuted :
+  exists f, normal f /\ ~ In DOT (fn_base f) /\ fn_ext_old f <> [] /\ fn_ext_old f <> fn_ext f /\
+            fn_dropExt_old f <> fn_dropExt f /\ fn_base f <> fn_name f ++ DOT :: fn_ext_old f.
+Proof.
+  exists [100; 105; 114; 46; 100; 47; 102; 105; 108; 101].
+  split; [|vm_compute; repeat split; try discriminate].
+  - rewrite <- (fn_norm_normal [100; 105; 114; 46; 100; 47; 102; 105; 108; 101]) at 1. apply fn_norm_normal.
+  - intros [E|[E|[E|[E|[]]]]]; discriminate.
+Qed.
